@@ -1,6 +1,6 @@
 (* Extract.v — OCaml extraction of the executable model (ExtrOcamlBasic only; Z, positive and nat
    stay the extracted inductives). Run from the directory that should receive model.ml. *)
-From Sbdf Require Import File Charset.
+From Sbdf Require Import File Charset Mem.
 Require Extraction.
 Require Import ExtrOcamlBasic.
 Extraction "model.ml"
@@ -18,4 +18,5 @@ Extraction "model.ml"
   cs_create cs_add_property cs_get_property cs_row_cnt cs_write cs_read cs_skip
   ts_create ts_add ts_write ts_write_end ts_read ts_skip
   write_table read_slices read_table
-  utf8_to_iso iso_to_utf8.
+  utf8_to_iso iso_to_utf8
+  mst0 obj_build obj_copy_m obj_destroy va_create_plain_m va_destroy va_get_values_plain_m.
